@@ -504,8 +504,6 @@ func (e *Engine) evalBinary(s *State, c *SpecCtx, n *ast.BinaryExpr) *SV {
 var ghostHeaps = map[string]string{
 	"buflen":  "Int", // bytes held by a *bytes.Buffer
 	"opened":  "Int", // number of Open attempts on a transport
-	"clen":    "Int",
-	"ccap":    "Int",
 	"consumed": "Int", // bytes taken from an io.Reader
 	"atype":    "Int", // type id of a (mutable) TApplicationException
 }
@@ -786,6 +784,34 @@ func (e *Engine) evalCall(s *State, c *SpecCtx, n *ast.CallExpr) *SV {
 			c2.Bound[pn] = arg(i)
 		}
 		return e.eval(s, &c2, pd.Body.Expr)
+	}
+	switch fname {
+	case "clen", "ccap":
+		// channel ghosts: number of buffered elements / capacity
+		name := map[string]string{"clen": "CL!", "ccap": "CC!"}[fname]
+		h := e.specHeap(s, c, name, "(Array Int Int)")
+		return svInt(app("select", h, arg(0).V.L[0]))
+	case "cclosed":
+		h := e.specHeap(s, c, "CX!", "(Array Int Bool)")
+		return svBool(app("select", h, arg(0).V.L[0]))
+	case "lastcallarg":
+		// lastcallarg("callee key", i): i-th argument of the most recent call to that callee on this path
+		if c.AtCallSite {
+			panic(clauseNotApplicable{"lastcallarg at call site"})
+		}
+		lit := n.Args[0].(*ast.BasicLit)
+		name, _ := strconv.Unquote(lit.Value)
+		ai, _ := strconv.Atoi(n.Args[1].(*ast.BasicLit).Value)
+		for i := len(s.Trace) - 1; i >= 0; i-- {
+			ev := s.Trace[i]
+			if ev.Kind == "call" && ev.What == name && ai < len(ev.Args) {
+				if ai < len(ev.ArgTypes) && ev.ArgTypes[ai] != nil {
+					return e.svOf(ev.Args[ai], ev.ArgTypes[ai])
+				}
+				return &SV{V: ev.Args[ai], Sort: "Int"}
+			}
+		}
+		panic(clauseNotApplicable{"lastcallarg " + name})
 	}
 	if sortS, ok := ghostHeaps[fname]; ok {
 		h := e.specHeap(s, c, "GH!"+fname, "(Array Int "+sortS+")")
